@@ -89,6 +89,48 @@ def stale_mode_oracle(ck) -> int:
     return n
 
 
+def str_subclass_oracle(ck) -> int:
+    """a text child may be an instance of a `str` subclass (an Enum member with a str mixin, a label class, numpy.str_): it is
+    text like any other string — same output as the plain string with the same characters, on the single-child path, next
+    to siblings, and however it was added"""
+    from htmltools import Tag, TagList
+    n = 0
+
+    class Label(str):
+        pass
+
+    class Tagged(str):
+        """a str subclass with state of its own and the inherited __str__ (what str() returns IS its characters; a subclass
+        that overrides __str__ is outside what the property pins: DESIGN 13.2)"""
+        __slots__ = ("note",)
+
+    vals = [Label("a<b"), Label("x & y > z"), Label("&lt;"), Tagged("<i>t</i>"), Tagged("a&amp;b"), Label("")]
+    builds = [("only child", lambda v, nm: Tag(nm, v)), ("with siblings", lambda v, nm: Tag(nm, "s", v, Tag("b", v))),
+              ("appended", lambda v, nm: (lambda t: (t.append(v), t)[1])(Tag(nm))), ("nested list", lambda v, nm: Tag(nm, [[v]])),
+              ("in a TagList", lambda v, nm: TagList(v)), ("inserted first", lambda v, nm: (lambda t: (t.insert(0, v), t)[1])(Tag(nm, "z")))]
+    for v in vals:
+        plain = str.__str__(v)
+        for nm in ("div", "span", "p", "script", "textarea"):
+            for bl, b in builds:
+                n += 1
+                ck.holds_checked += 1
+                try:
+                    got_o, want_o = b(v, nm), b(plain, nm)
+                    got = (got_o.get_html_string(), str(got_o), got_o.render()["html"])
+                    want = (want_o.get_html_string(), str(want_o), want_o.render()["html"])
+                except Exception as e:  # noqa: BLE001
+                    ck.py_violation(f"str_subclass {type(v).__name__} {plain!r} {nm} {bl}", f"raised {type(e).__name__}: {e}", "a str-subclass text child raised", py=bl)
+                    continue
+                if got != want:
+                    ck.py_violation(f"str_subclass {type(v).__name__} {plain!r} {nm} {bl}", got[0][:300],
+                                    f"a text child that is an instance of the str subclass {type(v).__name__} ({bl} of <{nm}>) renders {got[0]!r}; the plain string "
+                                    f"{plain!r} renders {want[0]!r}",
+                                    py=f"class Label(str): pass\nTag({nm!r}, Label({plain!r})).get_html_string()   # {bl}")
+    ck.exhaustive_scopes.append({"scope": "str-subclass text children: 6 values (plain subclass, subclass with slots) x 5 element names x 6 ways of adding, "
+                                          "against the plain string", "n": n, "exhaustive": True})
+    return n
+
+
 def run(tier: str) -> int:
     import htmltools
     from htmltools import _util
@@ -124,6 +166,7 @@ def run(tier: str) -> int:
         ck.add(l, im, nontrivial=nt, tag="escape")
     ck.add_src(['html_escape', 'normalize_text'])
     ck.extra_cov["stale_mode_cases"] = stale_mode_oracle(ck)
+    ck.extra_cov["str_subclass_cases"] = str_subclass_oracle(ck)
     ck.correspond(holds=True)
     # the exported function and the compatibility alias are the same mapping
     ck.holds_checked += 1
